@@ -1,4 +1,5 @@
 import CorsVerif.Proofs.Validate
+import CorsVerif.Proofs.Translated
 /-
   C05 — Every valid configuration is accepted; every violation is reported, typed.
 
@@ -140,5 +141,17 @@ theorem C05_message_prefix :
   decide +kernel
 
 #print axioms C05_message_prefix
+
+
+/-- **C05 (translated validators).** `validatePreflightStatus` and `validateMaxAge` — the two loop-free validators, where the
+integer subtleties live (range test before the `uint8` conversion, `-1` / `0` / default handling) — are translated from
+/repo's config.go on every run (constants evaluated by go/types) and equal the hand-written `Validate.status` /
+`Validate.maxAge` for every integer: same acceptance, same error value with its bounds, same stored value. -/
+theorem C05_validators_translated (x : Int) :
+    Gen.GoSrc.validatePreflightStatus x = (match Validate.status x with | .ok v => (none, v) | .error e => (some e, 0)) ∧
+    Gen.GoSrc.validateMaxAge x = (match Validate.maxAge x with | .ok v => (none, v) | .error e => (some e, [])) :=
+  ⟨Translated.validatePreflightStatus_eq x, Translated.validateMaxAge_eq x⟩
+
+#print axioms C05_validators_translated
 
 end Cors
